@@ -437,6 +437,48 @@ class Body:
                 st.append((n, known))
         return True
 
+    def exists_path_corr(self, via, target, start=0):
+        """Is there a path start -> via -> target on which switches over (copies of) the same once-assigned local agree?"""
+        roots = {}
+        seen = set()
+        st = [(start, frozenset(), start == via)]
+        steps = 0
+        while st:
+            bi, known, hit = st.pop()
+            if (bi, known, hit) in seen or bi not in self.live:
+                continue
+            seen.add((bi, known, hit))
+            steps += 1
+            if steps > 40000:
+                return True
+            hit = hit or bi == via
+            if bi == target and hit:
+                return True
+            t = self.blocks[bi]['term']
+            if t['k'] == 'switch':
+                if bi not in roots:
+                    roots[bi] = self._switch_root(bi)
+                r = roots[bi]
+                if r is not None:
+                    kd = dict(known)
+                    vals = [v for v, _ in t['targets']]
+                    if r in kd:
+                        tg = dict((a, b_) for a, b_ in t['targets'])
+                        st.append((tg.get(kd[r], t['otherwise']), known, hit))
+                        continue
+                    for v, b2 in t['targets']:
+                        st.append((b2, frozenset(list(known) + [(r, v)]), hit))
+                    if self.local_ty(r) == 'bool' and len(vals) == 1 and vals[0] in (0, 1):
+                        st.append((t['otherwise'], frozenset(list(known) + [(r, 1 - vals[0])]), hit))
+                    elif len(vals) >= 2 and self.blocks[t['otherwise']]['term']['k'] == 'unreachable':
+                        pass
+                    else:
+                        st.append((t['otherwise'], known, hit))
+                    continue
+            for n in self.succ[bi]:
+                st.append((n, known, hit))
+        return False
+
     # ---- iteration
     def calls(self, live_only=True):
         for i, b in enumerate(self.blocks):
